@@ -103,11 +103,13 @@ pub struct EpCfg {
     pub max_buffered: usize,
     pub seed_tsn: Option<u32>,
     pub seed_tag: Option<u32>,
+    /// `sctp_heartbeat_interval` (the library default is 15 s: longer than any run)
+    pub heartbeat_ms: u64,
 }
 impl Default for EpCfg {
     fn default() -> Self {
         EpCfg { rwnd: 128 * 1024, rto_initial_ms: 120, rto_min_ms: 60, rto_max_ms: 400, max_burst: 0,
-            max_cwnd: 256 * 1024, max_buffered: 256 * 1024, seed_tsn: None, seed_tag: None }
+            max_cwnd: 256 * 1024, max_buffered: 256 * 1024, seed_tsn: None, seed_tag: None, heartbeat_ms: 15_000 }
     }
 }
 
@@ -149,6 +151,7 @@ impl Endpoint {
         rc.sctp_max_burst = cfg.max_burst;
         rc.sctp_max_cwnd = cfg.max_cwnd;
         rc.sctp_max_buffered_amount = cfg.max_buffered;
+        rc.sctp_heartbeat_interval = Duration::from_millis(cfg.heartbeat_ms);
         hook::clear(port);
         hook::set_seeds(port, hook::Seeds { tag: cfg.seed_tag, tsn: cfg.seed_tsn });
         hook::trace_enable(port);
